@@ -9,7 +9,8 @@ process first plays DECOYS and throws their answers away:
     those of the real line, so each object of the decoy and the corresponding object of the real line share every
     identifier but not their sequence;
   * `mod.decoys(line)` (optional, property specific): further lines played as they are, e.g. the same levels in a
-    hierarchy of another depth.
+    hierarchy of another depth; a decoy `@strtypes <line>` is played by a caller that spells sequence types as plain
+    strings (`string_typed`).
 
 The Lean drivers get the line without the marker.  A cache, memo or registry inside the library that is keyed by
 something coarser than the content it returns (a GUID that does not cover the bases, a hash that forgets the ancestors)
@@ -53,6 +54,35 @@ def permuted_sequences():
         Sequence.__init__ = orig
 
 
+@contextlib.contextmanager
+def string_typed():
+    """the line evaluated by a caller that spells sequence types as plain strings (`"chromosome"`, `"sequence_chunk"`,
+    which the constructors document as equivalent): `Sequence.__init__` and `Parent.__init__` get `.value` instead of the
+    `SequenceType` member.  As a decoy it leaves string-typed Parents in the library's cache for the real line."""
+    from harness import warm
+    Sequence = [c for c in warm._classes() if c.__name__ == "Sequence"][0]
+    from inscripta.biocantor.parent import Parent
+    import enum
+    PCls = Parent.__wrapped__
+    so, po = Sequence.__dict__["__init__"], PCls.__dict__["__init__"]
+
+    def val(x):
+        return x.value if isinstance(x, enum.Enum) else x
+
+    def s_init(self, data, alphabet, id=None, type=None, *a, **kw):
+        so(self, data, alphabet, id, val(type), *a, **kw)
+
+    def p_init(self, *a, **kw):
+        if "sequence_type" in kw:
+            kw["sequence_type"] = val(kw["sequence_type"])
+        po(self, *a, **kw)
+    Sequence.__init__, PCls.__init__ = s_init, p_init
+    try:
+        yield
+    finally:
+        Sequence.__init__, PCls.__init__ = so, po
+
+
 def _clear_harness_caches():
     """the harness's OWN memo tables (functools.lru_cache on builder functions of harness.* modules) are emptied around a
     decoy: a decoy object must be built, and must never be handed to a real line by the harness itself.  The library's
@@ -83,23 +113,30 @@ def _cold_library_caches():
 
 
 def play(impl, mod_decoys, line):
-    """the decoys of `line` (marker already removed), answers and exceptions discarded"""
+    """the decoys of `line` (marker already removed), answers and exceptions discarded: first the property's own decoys
+    (they must be the first to fill the cold caches), then the letters decoy"""
     _clear_harness_caches()
     _cold_library_caches()
     try:
-        with permuted_sequences():
-            impl(line)
-    except BaseException:  # noqa
-        pass
+        if mod_decoys is not None:
+            try:
+                extra = list(mod_decoys(line) or [])
+            except Exception:  # noqa  (a decoy that cannot be derived is skipped)
+                extra = []
+            for d in extra:
+                try:
+                    if d.startswith("@strtypes "):
+                        with string_typed():
+                            impl(d[len("@strtypes "):])
+                    else:
+                        impl(d)
+                except BaseException:  # noqa
+                    pass
+                _clear_harness_caches()
+        try:
+            with permuted_sequences():
+                impl(line)
+        except BaseException:  # noqa
+            pass
     finally:
         _clear_harness_caches()
-    if mod_decoys is not None:
-        try:
-            extra = list(mod_decoys(line) or [])
-        except Exception:  # noqa  (a decoy that cannot be derived is skipped)
-            extra = []
-        for d in extra:
-            try:
-                impl(d)
-            except BaseException:  # noqa
-                pass
